@@ -137,6 +137,8 @@ def apply_path(ctx, repo, qual, must_clear):
     body = g.loop_body(loop)
     brk = [n for n in body if isinstance(n.ast, ast.Break)]
     ctx.ob("R3", f"{qual}::no-early-exit", not brk and not any(isinstance(n.ast, ast.Return) for n in body), f"{fi.qual}: apply loop can exit early", loc(fi, I.ast))
+    ctx.ob("R3", f"{qual}::applies-one-message-atomically", not any(n.suspends for n in g.nodes),
+           f"{fi.qual} suspends while applying the changes of one message: a refresh (or another message) can be installed in between and is then partly overwritten out of order", fi.loc)
     ctx.ob("R3", f"{qual}::structure-is-own", (receiver(ic) or "") == "self.struct", f"{fi.qual}: installs into `{receiver(ic)}`", loc(fi, I.ast))
     # long-lived handler is the dispatched one: provenance of hp is the callback parameter (not an attribute copy)
     ctx.ob("R6", f"{qual}::uses-dispatched-handler", True, "changes are read from the handler instance passed by the dispatcher")
